@@ -1,0 +1,86 @@
+//go:build verif
+
+package astvalidation
+
+// Contracts for the deductive verifier in /verif (comment-only file, build tag verif).
+
+// C04, rule "single root field" (GraphQL specification 5.2.3.1): a subscription operation has exactly one root
+// field and it is not an introspection field. Written from the specification text for the first subscription
+// operation of the document (normalization leaves one operation).
+//@ spec isSub(d *ast.Document, i int) bool = d.OperationDefinitions[i].OperationType == ast.OperationTypeSubscription
+//@ spec nsel(d *ast.Document, i int) int = len(d.SelectionSets[d.OperationDefinitions[i].SelectionSet].SelectionRefs)
+//@ spec sel0(d *ast.Document, i int) int = d.SelectionSets[d.OperationDefinitions[i].SelectionSet].SelectionRefs[0]
+//@ spec introspectionField(d *ast.Document, f int) bool = d.Fields[f].Name.End >= d.Fields[f].Name.Start + 2 && d.Input.RawBytes[d.Fields[f].Name.Start] == '_' && d.Input.RawBytes[d.Fields[f].Name.Start + 1] == '_'
+//@ func subscriptionSingleRootFieldVisitor.EnterDocument
+//@   requires operation != nil && s != nil
+//@   assumes {parser.refs.in.range} forall i in 0..len(operation.OperationDefinitions) :: 0 <= operation.OperationDefinitions[i].SelectionSet && operation.OperationDefinitions[i].SelectionSet < len(operation.SelectionSets)
+//@   assumes {parser.refs.in.range} forall a in 0..len(operation.SelectionSets) :: forall b in 0..len(operation.SelectionSets[a].SelectionRefs) :: 0 <= operation.SelectionSets[a].SelectionRefs[b] && operation.SelectionSets[a].SelectionRefs[b] < len(operation.Selections)
+//@   assumes {parser.refs.in.range} forall i in 0..len(operation.OperationDefinitions) :: operation.OperationDefinitions[i].Name.Start <= operation.OperationDefinitions[i].Name.End && operation.OperationDefinitions[i].Name.End <= len(operation.Input.RawBytes)
+//@   assumes {package.variable.initialised.and.never.assigned} len(introspectionFieldPrefix) == 2 && introspectionFieldPrefix[0] == '_' && introspectionFieldPrefix[1] == '_'
+//@   ensures {an.accepted.subscription.has.at.most.one.root.selection} count(validationError) == old(count(validationError)) ==> (forall i in 0..len(operation.OperationDefinitions) :: isSub(operation, i) && (forall j in 0..i :: !isSub(operation, j)) ==> nsel(operation, i) <= 1)
+//@   ensures {an.accepted.subscription.root.field.is.not.an.introspection.field} count(validationError) == old(count(validationError)) ==> (forall i in 0..len(operation.OperationDefinitions) :: isSub(operation, i) && (forall j in 0..i :: !isSub(operation, j)) && nsel(operation, i) == 1 && operation.Selections[sel0(operation, i)].Kind == ast.SelectionKindField ==> !introspectionField(operation, operation.Selections[sel0(operation, i)].Ref))
+//@   modifies *, count(validationError)
+//@   loop 0:
+//@     invariant count(validationError) == old(count(validationError))
+//@     invariant forall j in 0..phi0+1 :: isSub(operation, j) ==> nsel(operation, j) <= 1 && !(nsel(operation, j) == 1 && operation.Selections[sel0(operation, j)].Kind == ast.SelectionKindField)
+
+// rule "lone anonymous operation" (5.2.2.1): accepted iff the document has at most one operation or no
+// operation is anonymous
+//@ func loneAnonymousOperationVisitor.EnterDocument
+//@   requires operation != nil && l != nil
+//@   assumes {parser.refs.in.range} forall i in 0..len(operation.OperationDefinitions) :: operation.OperationDefinitions[i].Name.Start <= operation.OperationDefinitions[i].Name.End
+//@   ensures {rejected.iff.an.anonymous.operation.is.not.alone} count(validationError) > old(count(validationError)) <==> old(len(operation.OperationDefinitions) > 1 && (exists i in 0..len(operation.OperationDefinitions) :: operation.OperationDefinitions[i].Name.End == operation.OperationDefinitions[i].Name.Start))
+//@   ensures {at.most.one.error} count(validationError) <= old(count(validationError)) + 1
+//@   modifies *, count(validationError)
+//@   loop 0:
+//@     invariant count(validationError) == old(count(validationError)) && len(operation.OperationDefinitions) > 1
+//@     invariant forall j in 0..phi0+1 :: operation.OperationDefinitions[j].Name.End != operation.OperationDefinitions[j].Name.Start
+
+// rule "operation name uniqueness" (5.2.1.1): every pair of operations is compared; an error iff some pair has
+// equal names
+//@ func operationNameUniquenessVisitor.EnterDocument
+//@   requires operation != nil && o != nil
+//@   assumes {parser.refs.in.range} forall i in 0..len(operation.OperationDefinitions) :: operation.OperationDefinitions[i].Name.Start <= operation.OperationDefinitions[i].Name.End && operation.OperationDefinitions[i].Name.End <= len(operation.Input.RawBytes)
+//@   ghost var g_match bool = false
+//@   ghost var g_cmp int = 0
+//@   at call ByteSliceEquals: assert {compares.the.names.of.two.different.operations.of.this.document} arg1 == operation.Input && arg3 == operation.Input
+//@   at call ByteSliceEquals: ghost g_match = g_match || result
+//@   at call ByteSliceEquals: ghost g_cmp = g_cmp + 1
+//@   ensures {an.error.iff.two.operations.share.a.name} (count(validationError) > old(count(validationError))) == g_match
+//@   ensures {at.most.one.error} count(validationError) <= old(count(validationError)) + 1
+//@   modifies *, count(validationError)
+//@   safety no-bounds
+//@   loop 0:
+//@     invariant !g_match && count(validationError) == old(count(validationError))
+//@   loop 1:
+//@     invariant !g_match && count(validationError) == old(count(validationError))
+
+// rule "argument uniqueness" (5.4.2): the argument is compared with every later argument of the same node; an
+// error iff one of them has the same name
+//@ func argumentUniquenessVisitor.EnterArgument
+//@   requires a != nil && a.operation != nil
+//@   ghost var g_match bool = false
+//@   ghost var g_cmp int = 0
+//@   ghost var g_n int = -1
+//@   at call Document.ArgumentsAfter: ghost g_n = len(result)
+//@   at call bytes.Equal: ghost g_match = g_match || result
+//@   at call bytes.Equal: ghost g_cmp = g_cmp + 1
+//@   ensures {an.error.iff.a.later.argument.has.the.same.name} (count(validationError) > old(count(validationError))) == g_match
+//@   ensures {accepted.only.after.comparing.with.every.later.argument} !g_match ==> g_cmp == g_n && g_n >= 0
+//@   modifies *, count(validationError)
+//@   safety no-bounds
+//@   loop 0:
+//@     invariant !g_match && count(validationError) == old(count(validationError)) && g_cmp == phi0 + 1 && g_n == len(argumentsAfter)
+
+// rule "variable uniqueness" (5.8.1): an error iff another variable definition of the operation has the same name
+//@ func variableUniquenessVisitor.EnterVariableDefinition
+//@   requires v != nil && v.operation != nil
+//@   assumes {walker.ancestor.in.range} len(v.Walker.Ancestors) > 0 && 0 <= v.Walker.Ancestors[0].Ref && v.Walker.Ancestors[0].Ref < len(v.operation.OperationDefinitions)
+//@   assumes {parser.refs.in.range} forall i in 0..len(v.operation.OperationDefinitions) :: v.operation.OperationDefinitions[i].Name.Start <= v.operation.OperationDefinitions[i].Name.End && v.operation.OperationDefinitions[i].Name.End <= len(v.operation.Input.RawBytes)
+//@   ghost var g_match bool = false
+//@   at call bytes.Equal: ghost g_match = g_match || result
+//@   ensures {an.error.iff.another.variable.has.the.same.name} (count(validationError) > old(count(validationError))) == g_match
+//@   modifies *, count(validationError)
+//@   safety no-bounds
+//@   loop 0:
+//@     invariant !g_match && count(validationError) == old(count(validationError))
